@@ -65,7 +65,7 @@ func classesFor(r *rand.Rand, n int, must ...string) []string {
 }
 
 // mkPlan builds the seed-determined plan of one history.
-func mkPlan(kind string, blocks int64, tier string, r *rand.Rand) plan {
+func mkPlan(kind string, variant int, blocks int64, tier string, r *rand.Rand) plan {
 	p := plan{Kind: kind, Blocks: blocks, UnbondingS: 60}
 	mu := int64(1_000_000)
 	jit := func() int64 { return pick(r, int64(0), 0, 1, 999_999, int64(r.Intn(1_000_000))) } // sub-power remainders (truncation)
@@ -109,6 +109,15 @@ func mkPlan(kind string, blocks int64, tier string, r *rand.Rand) plan {
 		base := pick(r, []int64{26, 25, 25, 24, 0}, []int64{25, 25, 25, 25, 0}, []int64{30, 30, 20, 20, 0}, []int64{26, 26, 24, 12, 12},
 			[]int64{40, 15, 15, 15, 15}, []int64{101, 100, 100, 100, 0})
 		pols := []string{polSilent, polOnce, polSilent, polSilent, polRenew}
+		if variant%2 == 0 {
+			// "crowd": four equal silent validators of 22 % each; the first one jailed makes the
+			// others >25 % of what is left, one stays jailed for good, the others stay protected for
+			// the rest of the history (a total that also counts jailed validators would jail them)
+			base = []int64{22, 22, 22, 22, 12}
+			pols = []string{polStay, polSilent, polSilent, polSilent, polRenew}
+			r.Shuffle(4, func(i, j int) { pols[i], pols[j] = pols[j], pols[i] })
+			cl = classesFor(r, 5, clsPlain, clsPlain, clsZero, clsNearMiss, clsPlain) // the 0x2c defect would mask the point of this profile
+		}
 		for i := 0; i < 5; i++ {
 			st := base[i]
 			if st == 0 {
@@ -121,6 +130,9 @@ func mkPlan(kind string, blocks int64, tier string, r *rand.Rand) plan {
 			v.Delay = pick(r, int64(1), 2, 0)
 		}
 		p.StakeMoves = 25
+		if variant%2 == 0 {
+			p.StakeMoves = 4
+		}
 	case "endgame":
 		// two or three validators: last-active and >25 % protection decide almost everything
 		n := pick(r, 2, 3, 3)
